@@ -143,10 +143,28 @@ func (d *deepView) digestOf(v ssa.Value, fr *frame) digestInfo {
 	default:
 		return digestInfo{why: "unknown hash constructor " + ir.CallID(ctor)}
 	}
-	// everything fed to that hash object
+	// everything fed to that hash object — since its last Reset before this Sum, and
+	// before this Sum (one hash state reused for several digests)
+	sumSeq, lastReset := -1, -1
+	for _, di := range d.order {
+		if di.i == ssa.Instruction(call) && di.fr == r.fr {
+			sumSeq = di.seq
+		}
+	}
+	windowed := d.hasReset(h)
+	for _, di := range d.order {
+		if rc, ok := di.i.(ssa.CallInstruction); ok && rc.Common().IsInvoke() && rc.Common().Method.Name() == "Reset" && d.resolve(rc.Common().Value, di.fr).same(h) {
+			if sumSeq >= 0 && di.seq < sumSeq && di.seq > lastReset {
+				lastReset = di.seq
+			}
+		}
+	}
 	for _, di := range d.order {
 		call, ok := di.i.(ssa.CallInstruction)
 		if !ok {
+			continue
+		}
+		if windowed && sumSeq >= 0 && (di.seq > sumSeq || di.seq < lastReset) {
 			continue
 		}
 		cc := call.Common()
@@ -459,6 +477,7 @@ func checkC05(c *Ctx) {
 	// ---- L3: what is embedded
 	bad = nil
 	foundAttrs, foundIssuer, foundRaw, foundContent, okSerial, okSig := false, false, false, false, false, false
+	l3Undecided := ""
 	for _, di := range dv.order {
 		call, ok := di.i.(*ssa.Call)
 		if !ok {
@@ -508,6 +527,7 @@ func checkC05(c *Ctx) {
 			case haveAttrBytes && s[attributes.v]:
 				foundAttrs = true
 				parsed := false
+				handCut := false
 				for v := range s {
 					if cl, ok := v.(*ssa.Call); ok && strings.HasPrefix(ir.CallID(cl), cbPkg+".String.ReadASN1") {
 						parsed = true
@@ -520,12 +540,29 @@ func checkC05(c *Ctx) {
 				for v := range s {
 					if sx, ok := v.(*ssa.Slice); ok && (sx.Low != nil || sx.High != nil) {
 						if base := ir.StripConv(resolveCell(sx.X)); base == attributes.v {
+							if _, isK := ir.ConstInt(sx.Low); sx.Low != nil && !isK {
+								// the header length is computed by hand: whether the arithmetic is right is not evaluated
+								handCut = true
+								continue
+							}
 							parsed = false
 							bad = append(bad, "the SET header of the encoded attributes is stripped by slicing a fixed number of bytes (wrong for lengths >= 128)")
 						}
 					}
 				}
-				if !parsed {
+				if !parsed && !handCut {
+					// the header skipped inside a helper: a slice at a computed offset anywhere on the way
+					for v := range s {
+						if sx, ok := v.(*ssa.Slice); ok && sx.Low != nil {
+							if _, isK := ir.ConstInt(sx.Low); !isK {
+								handCut = true
+							}
+						}
+					}
+				}
+				if !parsed && handCut {
+					l3Undecided = "the SET header of the encoded attributes is skipped with a hand-computed header length"
+				} else if !parsed {
 					bad = append(bad, "the bytes under [0] authenticatedAttributes are not obtained by parsing the encoded SET")
 				}
 			case certP != nil && s[certP] && ir.HasField(s, "crypto/x509.Certificate.RawIssuer"):
@@ -568,7 +605,11 @@ func checkC05(c *Ctx) {
 	if !okSig {
 		bad = append(bad, "encryptedDigest is not the signer's result")
 	}
-	c.R.Check(len(bad) == 0, "L3.embedded", fname, "embedded-values", c.Pos(fn.Pos()), "the blob embeds the hashed attribute bytes, cert.RawIssuer + serial, cert.Raw, the content and the signature", strings.Join(bad, "; "))
+	if len(bad) == 0 && l3Undecided != "" {
+		c.R.Infof("L3.embedded", fname, "embedded-values", c.Pos(fn.Pos()), "not decided for this shape: "+l3Undecided)
+	} else {
+		c.R.Check(len(bad) == 0, "L3.embedded", fname, "embedded-values", c.Pos(fn.Pos()), "the blob embeds the hashed attribute bytes, cert.RawIssuer + serial, cert.Raw, the content and the signature", strings.Join(bad, "; "))
+	}
 
 	// ---- L5: emitter schema
 	shape := normaliseShape(c.topBuilderShape(dv))
@@ -797,9 +838,19 @@ func (d *deepView) onlySourceConds(call *ssa.Call, fr *frame) bool {
 // shapeCheck: a shape that is fully resolved is compared; one with unresolved
 // parts (a continuation taken from a table, a computed tag) is not decided.
 func (c *Ctx) shapeCheck(shape string, ok bool, rule, fn, construct, pos, what, detail string) {
-	if !ok && strings.Contains(shape, unknownShape) {
+	if !ok && (strings.Contains(shape, unknownShape) || strings.Contains(shape, "{}") || shape == "" || strings.HasPrefix(shape, "BYTES(")) {
 		c.R.Infof(rule, fn, construct, pos, what+" -- not decided for this shape: parts of the emitted structure are not resolved ("+shape+")")
 		return
 	}
 	c.R.Check(ok, rule, fn, construct, pos, what, detail)
+}
+
+// hasReset: the hash state h is reset somewhere in the view.
+func (d *deepView) hasReset(h dval) bool {
+	for _, di := range d.order {
+		if rc, ok := di.i.(ssa.CallInstruction); ok && rc.Common().IsInvoke() && rc.Common().Method.Name() == "Reset" && d.resolve(rc.Common().Value, di.fr).same(h) {
+			return true
+		}
+	}
+	return false
 }
